@@ -136,4 +136,19 @@ def judge (c : Case) : CaseResult := Id.run do
 def check (_params : List String) (lines : List String) : CaseResult :=
   judge (parseCase lines)
 
+/-- family `c01twin`: two instances of one parsed definitions value alive at the same time; the two recorded runs are
+separated by the line `variant twin` and each is judged on its own -/
+def checkTwin (_params : List String) (lines : List String) : CaseResult :=
+  let la := lines.takeWhile (· != "variant twin")
+  let lb := (lines.dropWhile (· != "variant twin")).drop 1
+  if lb.isEmpty then
+    if la.any (·.startsWith "harness-error") then { bad := la.filter (·.startsWith "harness-error") }
+    else { bad := ["c01twin: second instance missing"] }
+  else
+    let ra := judge (parseCase la)
+    let rb := judge (parseCase lb)
+    { diffs := ra.diffs.map ("first instance: " ++ ·) ++ rb.diffs.map ("second instance: " ++ ·),
+      specs := ra.specs ++ rb.specs, bad := ra.bad ++ rb.bad, infos := ra.infos ++ rb.infos,
+      skipped := ra.skipped && rb.skipped, nontrivial := ra.nontrivial || rb.nontrivial }
+
 end Bpmn.Driver.C01
